@@ -771,7 +771,7 @@ def _task(args):
                 else: cand('tok.progress', 'error-without-progress', 'an error is returned without consuming a byte', m, d)
             else: f['ok'] += 1
         # ---- no hidden state: a Reader field the scenario does not know is, after a complete value, what it was before
-        if info.get('unknown_fields') and kind == 'value' and ('tok.value' in want or 'tok.consumed' in want):
+        if info.get('unknown_fields') and (kind == 'value' or (kind == 'error' and ed != IO)) and ('tok.value' in want or 'tok.consumed' in want or 'tok.garbage' in want):
             f = fam('tok.hidden_state'); f['obl'] += 1; f['wit'] += 1
             diff = []
             for i_, (fname, v0) in info['unknown_fields'].items():
@@ -780,7 +780,7 @@ def _task(args):
                 ok_, m = ex.valid(d, v1.t == v0.t)
                 if not ok_: diff.append((fname, m))
             if not diff: f['ok'] += 1
-            else: cand('tok.hidden_state', 'hidden-state:' + diff[0][0], f'after a complete value the reader field `{diff[0][0]}` differs from its value before the call (state that carries over from value to value)', diff[0][1], d, {'consumed': cbn + reads})
+            else: cand('tok.hidden_state', 'hidden-state:' + diff[0][0] + (':after-error' if kind == 'error' else ''), f'after a {"complete value" if kind == "value" else "recoverable error"} the reader field `{diff[0][0]}` differs from its value before the call (state that carries over to the following values)', diff[0][1], d, {'consumed': cbn + reads, 'after': kind})
         # ---- reference
         ref = Ref(ex, d.pc)
         for p, rkind, j, rden in ref.value(PC(d.pc), E, 0):
@@ -938,6 +938,20 @@ def replay_hidden_state(ctx, c):
     the model's value text repeated many times must give that many equal rows"""
     from .cli import run_driver, show
     data = bytes.fromhex(c.model.get('input_hex', ''))
+    if c.model.get('after') == 'error':
+        # out(T^n . B) = out(T)^n . out(B): the malformed text repeated, then healthy values
+        tail = b' {"a":[1,{"b":2}]} [3] "s"'
+        for unit in (data.strip() or b'[1', b'{"id":7,"tags":["cut"', b'[1 2]'):
+            r1 = run_driver(ctx, ['--style', 'consise'], unit + b'\n'); rt = run_driver(ctx, ['--style', 'consise'], tail)
+            for reps in (200, 2000):
+                r = run_driver(ctx, ['--style', 'consise'], (unit + b'\n') * reps + tail, timeout=60)
+                exp_out = r1['stdout'] * reps + rt['stdout']
+                if r['stdout'] != exp_out or r['result'] != 'ok':
+                    c.status = 'reproduced'; c.unmodelled = None
+                    c.replay = {'stdin': f'{unit!r} on a line of its own, {reps} times, then {tail!r}', 'expected_rows': len(show(exp_out).splitlines()), 'actual_rows': len(show(r['stdout']).splitlines()), 'last_rows': show(r['stdout']).splitlines()[-3:], 'result': r['result']}
+                    return
+        c.status = 'inconclusive'; c.unmodelled = 'a reader field changes over a malformed value, but 2000 repetitions leave the following values intact (reset elsewhere, or a statistic)'
+        return
     exp, complete = concrete_reference(data)
     vals = [v for k, v in exp if k == 'value']
     if not vals: c.status = 'inconclusive'; c.unmodelled = 'no conforming value in the model input'; return
